@@ -203,7 +203,8 @@ class Ctx:
             if v["key"] == key:
                 v["count"] += 1
                 return
-        self.violations.append({"key": key, "detail": detail, "harness": harness, "spec": spec, "count": 1})
+        self.violations.append({"key": key, "detail": detail, "harness": harness, "spec": spec, "count": 1,
+                                "cmd": getattr(self, "_cur_cmd", None), "env": getattr(self, "_cur_env", None)})
 
     def sample(self, s):
         if len(self.samples) < self.sample_cap:
@@ -259,9 +260,12 @@ class Ctx:
         name = os.path.basename(exe).rsplit("-", 1)[0]
         for i, p in enumerate(procs):
             out, err = outs[i]
+            self._cur_cmd = base + (["--shard", "%d/%d" % (i, shards)] if shards > 1 else [])
+            self._cur_env = env
             for line in out.splitlines():
                 if line:
                     self.feed_line(line, harness=exe)
+            self._cur_cmd = None
             if p.returncode != 0 and "[driver] killed after" in err:
                 # the driver's own wall-clock limit ended this process (slow machine / remaining tier time used up): that is a cap of
                 # the enumeration, never a verdict - hangs of the code under test are detected inside the harnesses (scheduler watchdog,
@@ -375,6 +379,23 @@ def default_replay(mod, ctx, rec):
     return got
 
 
+def rerun_part_shows(ctx, v):
+    """Run the harness invocation that reported v once more (same arguments and shard); True if it reports the same class key."""
+    envd = dict(os.environ)
+    envd.setdefault("ASAN_OPTIONS", "detect_leaks=0:abort_on_error=0:allocator_may_return_null=1")
+    if v.get("env"):
+        envd.update(v["env"])
+    try:
+        r = subprocess.run(v["cmd"], stdout=subprocess.PIPE, stderr=subprocess.DEVNULL, text=True, errors="replace", env=envd, timeout=900)
+    except subprocess.TimeoutExpired:
+        return False
+    for line in r.stdout.splitlines():
+        parts = line.split("\t")
+        if parts[0] == "VIOL" and len(parts) > 1 and parts[1] == v["key"]:
+            return True
+    return False
+
+
 def finish(ctx, replay_fn=None):
     """Replay + classify violations, write evidence, print verdict lines, return exit code."""
     known = load_known(ctx.prop)
@@ -400,6 +421,12 @@ def finish(ctx, replay_fn=None):
                 # wrong outputs from run to run). It is a reproduced failure of this case: report it under the key the replay gave.
                 v["detail"] = "[first seen as %s; the replay of the same case failed as %s] %s" % (v["key"], keys[0], v["detail"])
                 v["key"] = keys[0]
+            elif v["key"] not in keys and v.get("cmd") and rerun_part_shows(ctx, v):
+                # Not reproducible in isolation, but the same enumeration part run again reports the same class: the failure depends
+                # on the cases executed before it in the same process (state kept between calls by the code under test - a cache,
+                # errno, a static buffer). That is a deterministic failure of the tree; its replay is the part's command line.
+                v["detail"] = "[fails only after the preceding cases of the same run, not in isolation; reproduced by running `%s` again] %s" % (
+                    " ".join(os.path.basename(x) if x.startswith("/") else x for x in v["cmd"]), v["detail"])
             elif v["key"] not in keys:
                 raise HarnessError("violation %s did not reproduce on replay (spec=%s) - harness nondeterminism; "
                                    "replay printed %r\n%s" % (v["key"], v["spec"], keys, r.stderr[-2000:]))
